@@ -71,4 +71,10 @@ structure Hint where
   generator : Bool := false
   deriving DecidableEq, Repr, Inhabited
 
+/-- how the argument table of a class with several configuration bases is searched (`Model/ClassTable.lean`). -/
+inductive Rule where
+  | depthFirst      -- `ChainMap({}, *(base.arguments for base in parents()))`: the bases' tables, each searched the same way
+  | mro             -- nearest declaration in the MRO
+  deriving DecidableEq, Repr, Inhabited
+
 end XpmVerif.ArgDecl
